@@ -72,7 +72,7 @@ def tv_verdict(ctx, tv, trace_file, what):
         return True
     # rejected: the failing constraint(s) are in CHKFAIL lines; keep the trace as replay
     name = "%s-%s.ndjson" % (what, time.strftime("%H%M%S"))
-    dst = vlib.save_replay(ctx.pid, name, src_path=trace_file)
+    dst = vlib.save_replay(ctx.pid, name, src_path=getattr(tv, "rejected_file", None) or trace_file)
     why = "; ".join(tv.chkfails[:3]) or "trace rejected at line %s" % tv.rejected_at
     ctx.violation("%s: %s (line %s of %s)" % (what, why, tv.rejected_at, dst), dst)
     return False
@@ -241,7 +241,7 @@ def check_C07(ctx):
             f.write(open(p).read())
     trace = ctx.path("trace.ndjson")
     vlib.vh(["peers", "--in", beh, "--out", trace])
-    tv = vlib.validate_trace("trace/PeerTrace.tla", "trace/PeerTrace.cfg", trace, timeout=3000, heap="12g")
+    tv = vlib.validate_trace_parallel("trace/PeerTrace.tla", "trace/PeerTrace.cfg", trace, nparts=8, timeout=3000)
     total, distinct = vlib.count_distinct_behaviours(beh)
     nontrivial = sum(1 for line in open(beh) if '"find"' in line and ('"add"' in line or '"fill"' in line))
     ctx.add_tv("peers", tv, total, min(distinct, nontrivial))
@@ -380,8 +380,8 @@ def table_pipeline(ctx, strict):
     with open(trace, "w") as f:
         for p in (trace + ".1", trace + ".2"):
             f.write(open(p).read())
-    tv = vlib.validate_trace("trace/TableTrace.tla", ctx.cfg("tv.cfg", TABLE_TV_CFG % ", ".join('"%s"' % s for s in strict)),
-                             trace, timeout=3000, heap="12g")
+    tv = vlib.validate_trace_parallel("trace/TableTrace.tla", ctx.cfg("tv.cfg", TABLE_TV_CFG % ", ".join('"%s"' % s for s in strict)),
+                                      trace, nparts=12, timeout=3000)
     total, distinct = vlib.count_distinct_behaviours(beh)
     ctx.add_tv("table", tv, total, distinct)
     ctx.cov["rule"] = ("behaviours = all operation sequences (offer as responder / as hearsay, query sent, query received, time) of "
